@@ -11,7 +11,7 @@ Driver for stream `blocks` (C06): one op per line, one observation per line.
   note <text>                                -> ok                  (a step of the case that is judged by the oracle only)
   addheaders <h>;<h>;...|-      h = idx:hash:prev:ts:nc:psr:wit
      -> ok bh=<n> hh=<n> top=<hash of the last recorded header> | err:<class> bh=<n> hh=<n> db=same
-  chain nvals= h= inc= mbsf= fpb= mvg= mtb= p2p= rsv= nta= committee= oracle= notary= attrfee=<typ>:<fee>,.. blocked=<name>,..|-
+  chain base= gorgon= nvals= h= inc= mbsf= fpb= mvg= mtb= p2p= rsv= nta= committee= oracle= notary= attrfee=<typ>:<fee>,.. blocked=<name>,..|-
                                              -> ok                  (what the stand-alone tx verification reads)
   rec <hash> tx | rec <hash> hist <idx>:<name>+<name>,<idx>:...   -> ok   (what is stored on chain under a hash:
                                              a transaction, or the conflicting transactions - block index and
@@ -21,7 +21,10 @@ Driver for stream `blocks` (C06): one op per line, one observation per line.
   addblock idx= sre= hash= prev= ts= nc= psr= wit= prim= mroot= newroot= txs=<tx>,..|- txh=<32-byte tx hash, hex>,..|-
         (mroot = digest of the header's MerkleRoot; the model computes the root of txh with double SHA-256)
         tx = id:wit:sys:net:vub:size:scriptok:<signer>+..:<attr>+..|-
-        signer = name/<scope None>/<s<hashOk><native><scriptsOk><result>.<cost> | m | x>
+        signer = name/<scope None>/<witness>
+        witness = b<hashOk>.<inv hex|->.<ver hex>.<verifying (key‖sig) pairs hex|->   the model RUNS the scripts
+                  (Model/Fees.lean price interpreter: result and GAS)  | s<hashOk><native><scriptsOk><result>.<cost> (facts)
+                  | m (empty verification script) | x (outside the interpreter's opcodes: fails)
         attr = hp | or.<scriptok><requestok>.<gas> | nvb.<h> | cf.<hash> | na.<nkeys> | rs.<type>
      -> ok bh=<n> hh=<n> stored=<hash>/<wit> stale=<number of block txs still in the mempool> pool=<ids left in the mempool>
       | err:<class> bh=<n> hh=<n> ledger=same pool=same db=<same|hdr>      class tx = tx/<reason>@<position>
@@ -31,10 +34,13 @@ import NeoModel.Base.Hex
 import NeoModel.Base.Sha256
 import NeoModel.Model.AddBlock
 import NeoModel.Model.AddBlock.TxVerify
+import NeoModel.Model.AddBlock.WitnessRun
 open NeoModel NeoModel.AddBlock
 
 /-- the scalar part of the `chain` line -/
 structure ChainCfg where
+  base : Nat := 0               -- exec fee factor in picoGAS per price unit
+  gorgon : Bool := true
   height : Nat := 0
   maxVUBInc : Nat := 0
   maxBlockSysFee : Nat := 0
@@ -96,9 +102,15 @@ def bit (s : String) : Option Bool := if s == "1" then some true else if s == "0
 
 def bitC (c : Char) : Option Bool := if c == '1' then some true else if c == '0' then some false else none
 
-def parseWitness (s : String) : Option Witness :=
+def parseWitness (base : Nat) (gorgon : Bool) (s : String) : Option Witness :=
   if s == "m" || s == "x" then some (.contract (fun _ => none))
   else match s.splitOn "." with
+    | [f, i, v, ps] =>
+      match f.toList with
+      | ['b', h] => do
+        let dec (x : String) : Option Bytes := if x == "-" then some [] else Hex.decode x
+        pure (witnessFromBytes base gorgon (← bitC h) (← dec i) (← dec v) (← dec ps))
+      | _ => none
     | [f, cost] =>
       match f.toList with
       | ['s', a, b, c, d] => do
@@ -106,9 +118,9 @@ def parseWitness (s : String) : Option Witness :=
       | _ => none
     | _ => none
 
-def parseSigner (s : String) : Option (Signer × Witness) :=
+def parseSigner (base : Nat) (gorgon : Bool) (s : String) : Option (Signer × Witness) :=
   match s.splitOn "/" with
-  | [n, sc, w] => do pure ({ account := nameNat n, scopeNone := (← bit sc) }, (← parseWitness w))
+  | [n, sc, w] => do pure ({ account := nameNat n, scopeNone := (← bit sc) }, (← parseWitness base gorgon w))
   | _ => none
 
 def parseAttr (s : String) : Option Attr :=
@@ -124,10 +136,10 @@ def parseAttr (s : String) : Option Attr :=
   | ["rs", t] => t.toNat?.map .other
   | _ => none
 
-def parseTx (s : String) : Option VTx :=
+def parseTxB (base : Nat) (gorgon : Bool) (s : String) : Option VTx :=
   match s.splitOn ":" with
   | [id, w, sys, net, vub, size, sok, sg, atr] => do
-    let sgs ← (sg.splitOn "+").mapM parseSigner
+    let sgs ← (sg.splitOn "+").mapM (parseSigner base gorgon)
     let ats ← if atr == "-" then some [] else (atr.splitOn "+").mapM parseAttr
     pure { id := (← hexNat id), wit := (← witNat w), scriptOk := (← bit sok), sysFee := (← sys.toNat?), netFee := (← net.toNat?),
            vub := (← vub.toNat?), size := (← size.toNat?), signers := sgs.map (·.1), wits := sgs.map (·.2), attrs := ats }
@@ -182,7 +194,7 @@ def doAddBlock (st : DState) (ws : List String) : Option (DState × String) := d
   let txh ← if txhS == "-" then some [] else (txhS.splitOn ",").mapM Hex.decode
   let newroot ← hexNat (← kv ws "newroot")
   let txsS ← kv ws "txs"
-  let txv ← if txsS == "-" then some [] else (txsS.splitOn ",").mapM parseTx
+  let txv ← if txsS == "-" then some [] else (txsS.splitOn ",").mapM (parseTxB st.ccfg.base st.ccfg.gorgon)
   let hdr : Header := { index := idx, hash := hash, prevHash := prev, merkleRoot := mroot, ts := ts,
                         nextConsensus := nc, sre := sre, prevStateRoot := psr, wit := wit, primary := prim }
   let b : Block := { hdr := hdr, txs := txv.map VTx.toTx }
@@ -275,7 +287,7 @@ def doChain (st : DState) (ws : List String) : Option DState := do
     | _ => none)
   let bl ← kv ws "blocked"
   pure { st with ccfg := {
-    nvals := (← n "nvals"), height := (← n "h"), maxVUBInc := (← n "inc"), maxBlockSysFee := (← n "mbsf"), feePerByte := (← n "fpb"),
+    base := (← n "base"), gorgon := (← bk "gorgon"), nvals := (← n "nvals"), height := (← n "h"), maxVUBInc := (← n "inc"), maxBlockSysFee := (← n "mbsf"), feePerByte := (← n "fpb"),
     maxVerGas := (← n "mvg"), mtb := (← n "mtb"), p2p := (← bk "p2p"), rsv := (← bk "rsv"), nta := (← bk "nta"),
     committee := nameNat (← kv ws "committee"), oracle := if orc == "-" then none else some (nameNat orc),
     notary := nameNat (← kv ws "notary"), attrFees := afs,
@@ -309,12 +321,12 @@ def step (st : DState) (ws : List String) : DState × String :=
     | some st' => (st', "ok")
     | none => (st, "bad-op")
   | ["relevant", cf, tok] =>
-    match parseTx tok, (kv [cf] "conf").bind bit with
+    match parseTxB st.ccfg.base st.ccfg.gorgon tok, (kv [cf] "conf").bind bit with
     | some v, some conf =>
       (st, if keptInPool (chainOf st) (balOf st (v.toTx).sender) v conf then "kept" else "dropped")
     | _, _ => (st, "bad-op")
   | ["verifytx", tok] =>
-    match parseTx tok with
+    match parseTxB st.ccfg.base st.ccfg.gorgon tok with
     | some v =>
       match verifyOffChain (chainOf st) (balOf st (v.toTx).sender) v with
       | none => (st, "ok")
@@ -343,7 +355,7 @@ def step (st : DState) (ws : List String) : DState × String :=
       | _ => none)
     ({ st with bals := ps }, "ok")
   | ["pool", toks] =>
-    match (if toks == "-" then some [] else (toks.splitOn ",").mapM parseTx) with
+    match (if toks == "-" then some [] else (toks.splitOn ",").mapM (parseTxB st.ccfg.base st.ccfg.gorgon)) with
     | some l => ({ st with node := { st.node with pool := l.map VTx.toTx }, poolObjs := l }, "ok")
     | none => (st, "bad-op")
   | ["sig", w, h, a, b] =>
